@@ -50,7 +50,7 @@ def run_correspondence(prop, binp, cases, label):
         if code & 2:
             cls = code >> 2
             name = prop.classes.get(cls)
-            if name and name in prop.known_classes:
+            if name and all(part in prop.known_classes for part in name.split("+")):
                 res["known"][name] += 1
             else:
                 res["O_fail"].append(c)
@@ -72,7 +72,8 @@ def shrink(prop, binp, case, pred_bit):
             break
         for c in cands:
             if c.code is not None and (c.code & pred_bit) and not (
-                    (c.code & 2) and prop.classes.get(c.code >> 2) in prop.known_classes):
+                    (c.code & 2) and prop.classes.get(c.code >> 2) and
+                    all(p in prop.known_classes for p in prop.classes.get(c.code >> 2).split("+"))):
                 cur = c
                 progressed = True
                 break
